@@ -1265,6 +1265,12 @@ def run_C16(ctx, rng, tier, res, known):
     for f in ("f32", "f64"):
         cases += gens.gen_boundary(rng, f, 500 if q else 10000)
         cases += gens.gen_random_valid(rng, f, 500 if q else 10000)
+        # every big-integer code path (stale / uninitialised limbs show up as history- or address-dependence):
+        # zero-limb runs and long carry chains in the multiplication by 5^135, integer ties, digit cuts
+        cases += gens.gen_sparse_posexp(rng, f, 150 if q else 3000)
+        cases += gens.gen_near_tie_posexp(rng, f, 150 if q else 3000)
+        cases += gens.gen_bigint_ties(rng, f, 150 if q else 3000)
+        cases += [x for x in _mod().cases_long(rng, "quick", f) if len(x[0]) < 3000][:: (25 if q else 2)]
     lines = ["it" + c[0].split(" ## ")[0][2:] for c in cases]
     for c in ctx.cfgs:
         model = run_model(c, "release", lines)
